@@ -263,7 +263,9 @@ def gen(seed, tier):
         ndev = r.choice([1, 2, 3])
         c, own = cfg(r, ndev=ndev, slots=r.choice([8, 8, 12, 6]))
         scripts = []
-        peers = r.sample([50, 51, 52, 53, 54], r.randint(2, 4))
+        peers = r.sample([50, 51, 52, 53, 54, 0], r.randint(2, 4))
+        if r.random() < 0.4 and 0 not in peers:
+            peers[-1] = 0           # source address 0 is a legal sender (a freed slot carries source 0: seed C10-19)
         for p in peers:
             kind = r.random()
             n = r.choice(BOUNDARY_LENS + [r.randint(9, 223)])
@@ -284,6 +286,17 @@ def gen(seed, tier):
                     scripts.append(bam_send_script(r, idev, r.choice(TP_PGNS_BCAST), rnd_payload(r, r.choice([9, 30])), jit=[51, 60, 80]))
         scripts.append(fp_traffic(r, own, k=r.randint(1, 4)))
         add(c, interleave(r, scripts))
+
+    # --- E2: a short transfer of another source starts and ends while a long one of source 0 is running (the slot freed by the short one
+    #         lies below the live one), both kinds, to the same destination ---------------------------------------------------------
+    for _ in range(8 if not thorough else 120):
+        c, own = cfg(r, ndev=r.choice([1, 2]), slots=r.choice([5, 8]))
+        bam = r.random() < 0.5
+        dst = 255 if bam else own[0]
+        short = flat(recv_script(r, r.choice([5, 50]), dst, r.choice(RX_PGNS), rnd_payload(r, r.choice([9, 14])), bam=bam, per_step=None))
+        long_ = recv_script(r, 0, dst, r.choice(RX_PGNS), rnd_payload(r, r.choice([40, 100, 223])), bam=bam, per_step=1)
+        ops = list(short[:1]) + ['P'] + list(long_[0]) + ['P'] + short[1:] + ['P'] + flat([st + ['P'] for st in long_[1:]])
+        add(c, ops)
 
     # --- F: every single dropped / duplicated / reordered frame of a valid session; afterwards a fresh transfer -------------------
     mut_lens = [9, 15, 36] if not thorough else [9, 14, 15, 22, 36, 50, 78]
